@@ -328,7 +328,8 @@ func vbRunScenario(args []string) string {
 	}
 	// Sequenced mode (event Q): an event scheduled at time t is not launched before the effects of the events
 	// scheduled at least 100 ms earlier have taken place (poll registered; poll expired when its 10 s are over;
-	// client / answer arrived), so that a loaded machine cannot reorder well-separated events. Herds do not use it.
+	// client refused or its offer returned by a poll; answer / installation returned), so that a loaded machine cannot
+	// reorder well-separated events. Herds do not use it.
 	sequenced := false
 	var bar *vbBarrier
 	for _, e := range evs {
@@ -368,6 +369,12 @@ func vbRunScenario(args []string) string {
 		}
 		return evState{}
 	}
+	deliveredOffers := map[string]bool{}
+	delivered := func(offer string) bool {
+		stMu.Lock()
+		defer stMu.Unlock()
+		return deliveredOffers[offer]
+	}
 	registered := func(sid string) bool {
 		ctx.snowflakeLock.Lock()
 		_, ok := ctx.idToSnowflake[sid]
@@ -394,8 +401,11 @@ func vbRunScenario(args []string) string {
 						// its 10 s are over: it must have expired or been matched (then it has returned too)
 						ok = false
 					}
+				case 'C':
+					// its matchSnowflake has taken place once it has returned (refused) or a poll has returned its offer
+					ok = st.returned || delivered(p.f[2])
 				default:
-					ok = st.returned || (!st.arrived.IsZero() && time.Since(st.arrived) > 40*time.Millisecond)
+					ok = st.returned
 				}
 				if ok {
 					break
@@ -462,6 +472,13 @@ func vbRunScenario(args []string) string {
 				close(stop)
 				stamp("t"+key, 2, time.Now(), start)
 				set(key, res)
+				if got {
+					if f := strings.SplitN(res, ":", 3); len(f) == 3 {
+						stMu.Lock()
+						deliveredOffers[f[1]] = true
+						stMu.Unlock()
+					}
+				}
 				mark(key, true)
 				pollDone[e.k] <- got
 			case 'C':
